@@ -173,7 +173,11 @@ let run_coa fl toks impl =
                        | (OReply (cl, _, _, _) | ODropInvalid (cl, _) | OSilent cl), _ :: _ :: "drop" :: st :: _ ->
                          st = Printf.sprintf "st=c%d.invalid1" (int_of_nat cl)
                        | _ -> false) in
-            let (o, seen') = coa_step_st md5f fl rej cfg (z_of_int now) src (n_of_int bus) dg !seen in
+            (* second admissible choice: the attribute order of the reply; the model takes the reply the implementation
+               sent and accepts it only if it is its own reply up to order and verifies (reply_equiv) *)
+            let orep = (try Some (bytes_of_hex (kv (List.find (fun t -> String.length t > 6 && String.sub t 0 6 = "reply=") (tokens seg)) "reply"))
+                        with Not_found -> None) in
+            let (o, seen') = coa_step_st md5f fl rej orep cfg (z_of_int now) src (n_of_int bus) dg !seen in
             seen := seen';
             (match o with
              | ODropUnknown -> pre ^ "drop st=unknown1 ev=noev"
